@@ -230,10 +230,19 @@ package s2
 //@ spec func vcLoopIndexed(l *Loop) bool = l != nil && len(l.vertices) >= 1 && l.index != nil && vcSI(l.index) && !vcHeld(&l.index.mu) &&
 //@    l.index.nextID == 1 && vcMapHas(l.index.shapes, 0) && l.index.shapes[0] == Shape(l)
 
+//@ property C13 C04
+// Inverting a loop flips its origin bit (so every crossing parity from OriginPoint is complemented), reverses the vertex
+// order of an ordinary loop, and hands the loop to a reset index again (one shape, to be rebuilt on next use).
 //@ func (l *Loop) Invert()
-//@   requires vcLoopIndexed(l)
+//@   requires vcLoopIndexed(l) && vcRectConsts()
 //@   noframe
 //@   ensures [indexed] vcLoopIndexed(l)
 //@   ensures [pending] l.index.pendingAdditionsPos == 0 && l.index.status == stale
 //@   ensures [flipped] l.originInside == !old(l.originInside)
+//@   ensures [reversed] len(l.vertices) > 1 ==> (forall k int :: 0 <= k && k < len(l.vertices) ==> vcSame(l.vertices[k], vcPreElem(old(l.vertices), len(l.vertices)-1-k)))
+//@   ensures [same-length] len(l.vertices) == old(len(l.vertices))
 //@   loop 1 (i int): invariant l != nil && len(l.vertices) >= 1 && l.index != nil && vcSI(l.index) && !vcHeld(&l.index.mu) && l.index.nextID == 0 && l.index.status == fresh && l.originInside == old(l.originInside) && -1 <= i && i < len(l.vertices)
+//@   loop 1: invariant [range] i < len(l.vertices)/2 && len(l.vertices) == old(len(l.vertices))
+//@   loop 1: invariant [swapped] forall k int :: 0 <= k && k < len(l.vertices) ==> vcSame(l.vertices[k], vcIf(k > i && k < len(l.vertices)-1-i, vcPreElem(old(l.vertices), len(l.vertices)-1-k), vcPreElem(old(l.vertices), k)))
+
+//@ property C13
